@@ -182,3 +182,51 @@ func summaryBattery() {
 	}
 	batteryTab["galias"] = rows
 }
+
+// ---- automatic summaries
+
+var (
+	autoMu  sync.Mutex
+	autoFns = map[string]*ssa.Function{}
+)
+
+func registerAuto(fn *ssa.Function) {
+	autoMu.Lock()
+	autoFns["auto:"+fn.Name()] = fn
+	autoMu.Unlock()
+}
+
+func autoNative(name string) func(args []string) (string, bool) {
+	autoMu.Lock()
+	fn := autoFns[name]
+	autoMu.Unlock()
+	if fn == nil {
+		return nil
+	}
+	return func(args []string) (res string, ok bool) {
+		concreteMu.Lock()
+		ex := concreteEx
+		concreteMu.Unlock()
+		if ex == nil {
+			return "", false
+		}
+		defer func() {
+			if r := recover(); r != nil {
+				ok = false
+			}
+		}()
+		p := newPath(ex, nil, nil)
+		p.runInit()
+		var vs []Value
+		for i, a := range args {
+			b := fn.Signature.Params().At(i).Type().Underlying().(*types.Basic)
+			vs = append(vs, Value(valueTerm(a, sortOfBasic(b))))
+		}
+		v := p.callFunction(fn, vs, nil)
+		t, isT := v.(*Term)
+		if !isT || !t.IsConst() {
+			return "", false
+		}
+		return termModelValue(t), true
+	}
+}
